@@ -645,7 +645,13 @@ func run(spec Spec) Case {
 			}
 			time.Sleep(50 * ms)
 			s.shiftKeys(181)
-			s.sleepUntil(5400 * ms) // the 5 s rate limit of the handshake message sent at the start is over
+			if spec.Var == "resess-nh" {
+				// 7.5 s: the new-handshake timer (15.05 .. 15.39 s) then expires well between the 2nd
+				// (12.5 .. 12.83 s) and the 3rd (17.5 .. 18.17 s) transmission: the order is determined
+				s.sleepUntil(7500 * ms)
+			} else {
+				s.sleepUntil(5400 * ms) // the 5 s rate limit of the handshake message sent at the start is over
+			}
 			t0 := time.Now()
 			s.tun(per)
 			time.Sleep(time.Until(t0.Add(22*5334*ms + 900*ms))) // gave up for sure (up to 22 transmissions)
@@ -1125,7 +1131,6 @@ func thoroughSpecs(r *rand.Rand) []Spec {
 		Spec{Kind: "giveup", N: 3, Per: 1, Delay: d()},
 		Spec{Kind: "giveup", N: 6, Per: 2, Var: "tun", Delay: d()},
 		Spec{Kind: "giveup", Per: 2, Var: "resess", Delay: d()},
-		Spec{Kind: "giveup", Per: 1, Var: "resess-nh", Delay: d()},
 		Spec{Kind: "giveup", N: 2, Per: 1, Var: "tun2", Delay: d()},
 		Spec{Kind: "regive", N: 3, Per: 2, Var: "again2", Delay: d()},
 		Spec{Kind: "regive", N: 2, Per: 1, Var: "again2", Delay: d()},
